@@ -261,6 +261,25 @@ Section Codec.
     Qed.
   End RoundTrip.
 
+  (* after a successful write the queries find the file in the top layer *)
+  Theorem queries_after_write S p b loc S' :
+    fs_write compress S p b loc = (S', FOk tt) ->
+    fs_file_exists S' p loc = FOk true /\ fs_exists S' p loc = FOk true /\
+    exists s, fs_resolve S' p loc = FOk (Some (length (layers S') - 1, s))%nat.
+  Proof.
+    intros H. apply fs_write_cases in H. destruct H as [(_ & N)|(s & pp & tr & c & top & rest & top' & ok & A & En & Ly & W & -> & R)]; [congruence|].
+    destruct ok; [|discriminate]. apply l_write_ok in W. destruct W as (-> & Hp & G & _).
+    remember (mkFs (rest ++ [top']) (conf S) (lng S)) as S1 eqn:ES.
+    assert (A' : fs_addr S1 p loc = FOk (s, (pp, false))) by (rewrite (fs_addr_state S S1) by (subst S1; reflexivity); exact A).
+    assert (EL : layers S1 = rest ++ [top']) by (subst S1; reflexivity).
+    assert (F : l_is_file top' (pp, false) = true) by (unfold l_is_file; cbn [fst snd]; rewrite G; reflexivity).
+    assert (E : l_exists top' (pp, false) = true) by (unfold l_exists; rewrite F; reflexivity).
+    rewrite (fs_file_exists_spec S1 p s loc _ A'), (fs_exists_spec S1 p s loc _ A'), (fs_resolve_spec S1 p s loc _ A'), EL.
+    rewrite !existsb_app. cbn [existsb]. rewrite F, E, !orb_true_r.
+    rewrite (search_top_last (fun L => l_exists L (pp, false)) rest top' E).
+    repeat split. exists s. rewrite app_length. cbn [length]. do 3 f_equal. lia.
+  Qed.
+
   (* ---- create_dir ---- *)
   Lemma fs_create_dir_cases S p loc S' r : fs_create_dir S p loc = (S', r) ->
     (S' = S /\ r <> FOk tt) \/
